@@ -1,6 +1,115 @@
-import MotoModel.Model.DiskCli
-import MotoModel.Spec.Dos
+/-
+  C10 — disk side placement (--eos, overflow to next side) matches report and image.
+  (first layer: the cursor of the injector state machine)
+-/
+import MotoModel.Proofs.DiskSector
 namespace Moto.C10
 open Moto Moto.Disk
-theorem placeholder : computeRequiredSlots 0 255 = (0, 255) := rfl
+
+/-- sides strictly before `k` are the same in both images -/
+def SidesBeforeKept (k : Nat) (a b : Image) : Prop := ∀ i < k, b.getD i [] = a.getD i []
+
+/-- **C10 (a file moves forward only)**: storing one file never moves the cursor back, keeps the
+    image length, and never touches a side the cursor has left. -/
+theorem injWriteFile_cursor (name ext : Str) (kind flag : Nat) (data : Bytes) (fuel : Nat) :
+    ∀ (st st' : Inj), injWriteFile name ext kind flag data fuel st = .ok st' →
+      st.cur ≤ st'.cur ∧ st'.img.length = st.img.length ∧ SidesBeforeKept st.cur st.img st'.img := by
+  induction fuel with
+  | zero => intro st st' h; simp [injWriteFile] at h; subst h; exact ⟨Nat.le_refl _, rfl, fun _ _ => rfl⟩
+  | succ f ih =>
+    intro st st' h
+    simp only [injWriteFile] at h
+    split at h
+    · cases h; exact ⟨Nat.le_refl _, rfl, fun _ _ => rfl⟩
+    · split at h
+      · cases h
+        refine ⟨Nat.le_refl _, by simp, ?_⟩
+        intro i hi
+        simp only [List.getD_eq_getElem?_getD]
+        rw [List.getElem?_set_ne (by omega)]
+      · rename_i sd _
+        cases hu : usageOfSide (st.img.set st.cur sd) st.cur with
+        | error e => rw [hu] at h; cases h
+        | ok u =>
+          rw [hu] at h
+          simp only at h
+          split at h
+          · cases h
+            refine ⟨by simp, by simp, ?_⟩
+            intro i hi
+            simp only [List.getD_eq_getElem?_getD]
+            rw [List.getElem?_set_ne (by omega)]
+          · obtain ⟨h1, h2, h3⟩ := ih _ st' h
+            simp only at h1 h2 h3
+            refine ⟨by omega, by rw [h2]; simp, ?_⟩
+            intro i hi
+            rw [h3 i (by omega)]
+            simp only [List.getD_eq_getElem?_getD]
+            rw [List.getElem?_set_ne (by omega)]
+      · cases h
+
+theorem injFile_cursor (w : Tape.World) (src : Str) (st st' : Inj) (p : Bool) (h : injFile w src st = .ok (st', p)) :
+    st.cur ≤ st'.cur ∧ st'.img.length = st.img.length ∧ SidesBeforeKept st.cur st.img st'.img := by
+  unfold injFile at h
+  dsimp only at h
+  cases hw : w (splitSource src).2.2.2 with
+  | none => rw [hw] at h; cases h; exact ⟨Nat.le_refl _, rfl, fun _ _ => rfl⟩
+  | some data =>
+    rw [hw] at h
+    dsimp only at h
+    split at h
+    · cases h; exact ⟨Nat.le_refl _, rfl, fun _ _ => rfl⟩
+    · split at h
+      · cases h; exact ⟨Nat.le_refl _, rfl, fun _ _ => rfl⟩
+      · cases hf : injWriteFile (splitSource src).1 _ _ _ data 4 st with
+        | error e => rw [hf] at h; cases h
+        | ok st1 =>
+          rw [hf] at h
+          cases h
+          exact injWriteFile_cursor _ _ _ _ _ 4 st st' hf
+
+/-- **C10 (cursor monotone over a whole batch)** -/
+theorem injLoop_cursor (w : Tape.World) (srcs : List Str) : ∀ (st st' : Inj), injLoop w srcs st = .ok st' →
+    st.cur ≤ st'.cur ∧ st'.img.length = st.img.length ∧ SidesBeforeKept st.cur st.img st'.img := by
+  induction srcs with
+  | nil => intro st st' h; simp [injLoop] at h; subst h; exact ⟨Nat.le_refl _, rfl, fun _ _ => rfl⟩
+  | cons src rest ih =>
+    intro st st' h
+    simp only [injLoop] at h
+    split at h
+    · -- end-of-side marker
+      cases hu : usageOfSide st.img st.cur with
+      | error e => rw [hu] at h; cases h
+      | ok u =>
+        rw [hu] at h
+        dsimp only at h
+        split at h
+        · cases h; exact ⟨by simp, rfl, fun _ _ => rfl⟩
+        · obtain ⟨h1, h2, h3⟩ := ih _ st' h
+          exact ⟨by simp only at h1; omega, h2, fun i hi => h3 i (by simp only; omega)⟩
+    · cases hf : injFile w src st with
+      | error e => rw [hf] at h; cases h
+      | ok r =>
+        obtain ⟨st1, p⟩ := r
+        rw [hf] at h
+        dsimp only at h
+        obtain ⟨a1, a2, a3⟩ := injFile_cursor w src st st1 p hf
+        split at h
+        · cases h; exact ⟨a1, a2, a3⟩
+        · obtain ⟨b1, b2, b3⟩ := ih st1 st' h
+          exact ⟨by omega, by rw [b2, a2], fun i hi => by rw [b3 i (by omega), a3 i hi]⟩
+
+/-- **C10 (the image is always written)**: whenever the batch is processed to its end — however
+    many files were refused or dropped after the fourth side — exactly one archive write happens. -/
+theorem always_saved (fl : Flavour) (w : Tape.World) (verbose : Bool) (archive : Str) (img : Image) (srcs : List Str)
+    (h : (performOn fl w verbose archive img srcs).status = .ret 0) :
+    ∃ bytes, (performOn fl w verbose archive img srcs).writes = [(archive, bytes)] := by
+  unfold performOn at h ⊢
+  by_cases hlt : img.length < 4
+  · simp [hlt] at h
+  · simp only [hlt, if_false] at h ⊢
+    cases hp : performCore w verbose img srcs with
+    | error e => rw [hp] at h; obtain ⟨e1, o⟩ := e; simp at h
+    | ok st => exact ⟨_, rfl⟩
+
 end Moto.C10
